@@ -257,7 +257,31 @@ fn gen_body(s: &mut Src, sig: &Sig) -> (Vec<Fact>, Vec<(String, Ty)>, String) {
     let n_dec = s.below(4);
     let mut n_s = 0usize;
     for _ in 0..n_dec {
-        match s.below(9) {
+        match s.below(12) {
+            9 | 10 => {
+                // existence test: an atom all of whose variables are local to it and absent from the head (they are not
+                // in `vars`), optionally with a repeated variable or a constant: planners treat such atoms specially
+                let q = |k: usize| Term::Var(format!("q{}_{k}", body.len()));
+                let atom = match s.below(6) {
+                    0 => Term::App(*s.pick(&es), vec![q(0), q(0)]),
+                    1 => Term::App(*s.pick(&es), vec![q(0), q(1)]),
+                    2 => Term::App(*s.pick(&es), if s.bool() { vec![q(0), Term::I(s.range(0, 3))] } else { vec![Term::I(s.range(0, 3)), q(0)] }),
+                    3 => {
+                        let pats: [[usize; 3]; 4] = [[0, 0, 1], [0, 1, 0], [1, 0, 0], [0, 0, 0]];
+                        let p = *s.pick(&pats);
+                        Term::App(fi(sig, "T"), vec![q(p[0]), q(p[1]), q(p[2])])
+                    }
+                    4 => Term::App(fi(sig, "U"), vec![q(0)]),
+                    _ => Term::App(fi(sig, "T"), vec![q(0), q(1), q(1)]),
+                };
+                body.push(Fact::T(atom));
+            }
+            11 => {
+                // half-local atom: one variable joined with the rest of the body, one existential
+                let a = s.below(n_int);
+                let q = Term::Var(format!("q{}_0", body.len()));
+                body.push(Fact::T(Term::App(*s.pick(&es), if s.bool() { vec![iv(a), q] } else { vec![q, iv(a)] })));
+            }
             0 => {
                 // constant in an atom
                 let c = Term::I(s.range(0, 3));
